@@ -167,6 +167,14 @@ pub trait Property: Sync {
     fn run_shard(&self, env: &Env, nshards: usize, known: &Known) -> ShardReport;
     fn replay(&self, case: &Value, env: &Env) -> Result<Outcome, String>;
     fn replay_repeats(&self) -> u32;
+    /// A single case that runs longer than this is a stall (the shard ends with exit code 3).
+    fn case_timeout_s(&self) -> u64 {
+        match self.id() {
+            "C15" | "C18" => 600,
+            "C06" | "C10" | "C11" | "C16" | "C17" => 300,
+            _ => 180,
+        }
+    }
 }
 
 /// A property defined by a case type, a strategy and an executor.
@@ -205,6 +213,28 @@ fn rng_for(seed: u64, id: &str, shard: usize) -> TestRng {
         bytes[(i as usize) * 8..(i as usize + 1) * 8].copy_from_slice(&h.to_le_bytes());
     }
     TestRng::from_seed(RngAlgorithm::ChaCha, &bytes)
+}
+
+/// milliseconds since process start at which the running case started (0 = no case running)
+static CASE_STARTED_MS: std::sync::atomic::AtomicU64 = std::sync::atomic::AtomicU64::new(0);
+static PROCESS_T0: std::sync::OnceLock<Instant> = std::sync::OnceLock::new();
+
+fn now_ms() -> u64 {
+    PROCESS_T0.get_or_init(Instant::now).elapsed().as_millis() as u64 + 1
+}
+
+/// Watchdog thread of a shard: when one case runs longer than `limit_s`, save it next to the
+/// report path and leave with exit code 3 (threads may be stuck inside the code under test).
+fn spawn_stall_watchdog(limit_s: u64, current_case: PathBuf, out: PathBuf) {
+    std::thread::spawn(move || loop {
+        std::thread::sleep(Duration::from_millis(250));
+        let st = CASE_STARTED_MS.load(Ordering::SeqCst);
+        if st != 0 && now_ms().saturating_sub(st) > limit_s * 1000 {
+            let case = std::fs::read_to_string(&current_case).unwrap_or_default();
+            let _ = std::fs::write(out.with_extension("stall"), case);
+            std::process::exit(3);
+        }
+    });
 }
 
 thread_local! {
@@ -544,6 +574,9 @@ where
             let mut runner = TestRunner::new_with_rng(config, rng_for(env.seed, self.id, env.shard));
             let strategy = (self.strategy)(env.tier);
             let current_path = env.scratch.join("current-case.json");
+            if let Some(op) = &env.out_path {
+                spawn_stall_watchdog(self.case_timeout_s(), current_path.clone(), op.clone());
+            }
             let accr = std::cell::RefCell::new(&mut acc);
             let result = runner.run(&strategy, |c| {
                 let cj = serde_json::to_value(&c).unwrap_or(Value::Null);
@@ -551,7 +584,9 @@ where
                     // side file: lets the supervisor name the case if this process dies
                     let _ = std::fs::write(&current_path, serde_json::to_string(&cj).unwrap_or_default());
                 }
+                CASE_STARTED_MS.store(now_ms(), Ordering::SeqCst);
                 let out = self.exec_caught(&c, env);
+                CASE_STARTED_MS.store(0, Ordering::SeqCst);
                 let failed = accr.borrow_mut().absorb(self.id, &cj, &out, known);
                 if failed && out.fatal {
                     let mut a = accr.borrow_mut();
@@ -756,6 +791,16 @@ pub fn supervise(prop: &dyn Property, tier: Tier, seed: u64) -> i32 {
                 if let Some(e) = r.harness_error {
                     harness_errors.push(format!("shard {}: {}", s, e));
                 }
+            }
+            None if out.with_extension("stall").exists() => {
+                let text = std::fs::read_to_string(out.with_extension("stall")).unwrap_or_default();
+                let case: Value = serde_json::from_str(&text).unwrap_or(Value::Null);
+                let fl = Failure {
+                    sig: "case-stalled".into(),
+                    msg: format!("one case ran longer than {} s and was abandoned (inconclusive, not a violation)", prop.case_timeout_s()),
+                };
+                let path = write_replay(id, &case, seed, &fl);
+                harness_errors.push(format!("shard {}: a case stalled for more than {} s; it is saved as {}", s, prop.case_timeout_s(), path));
             }
             None => {
                 use std::os::unix::process::ExitStatusExt;
